@@ -70,3 +70,59 @@ let run (id : string) (ops : string list) (out : out_channel) =
     | _ -> failwith ("ludp op: " ^ op)) ops
 
 let registered = Registry.register "Ludp" run
+
+(* ---- extraction cross-check inside Coq (see c18.ml): every model call this glue makes for the ops of a
+   sampled case (decode with NextLayerType for the current known-port list and the renderer test,
+   serialize), restated as a Gallina term and recomputed by vm_compute, must give the value the
+   extracted code computed here.  (big: cases, whose payload comes from the glue's generator, are not restated.) *)
+let coq_udp (l : udp) =
+  Printf.sprintf "(mkUdp %s %s %s %s %s %s %s %s)" (coq_zlist l.u_contents) (coq_zlist l.u_payload) (coq_z l.u_sport) (coq_z l.u_dport)
+    (coq_z l.u_length) (coq_z l.u_csum) (coq_zlist l.u_sp) (coq_zlist l.u_dp)
+let coq_ph = function
+  | PH4 (a, b) -> Printf.sprintf "(PH4 %s %s)" (coq_zlist a) (coq_zlist b)
+  | PH6 (a, b) -> Printf.sprintf "(PH6 %s %s)" (coq_zlist a) (coq_zlist b)
+  | PHnone -> "PHnone"
+let coq_junk d = Printf.sprintf "(repeat %s 16%%nat)" (coq_z (z_of_int (if d = 1 then 0xAA else 0)))
+
+let to_coq (idx : int) (ops : string list) (out : out_channel) =
+  let n = ref 0 and kp = ref [] in
+  let name () = incr n; Printf.sprintf "sample_%d_%d" idx !n in
+  let small h = String.length h <= 300 in
+  let ex_dec (call : string) (((l, o), tr) : (udp * unit Base.outcome) * bool) =
+    coq_example_named out (name ()) (Printf.sprintf "(let r := %s in (r, udp_next %s (fst (fst r)), udp_render_panics (fst (fst r))))" call (coq_zlist !kp))
+      (Printf.sprintf "(%s, %s, %s, %s, %s)" (coq_udp l) (coq_outcome coq_unit o) (coq_bool tr) (coq_z (udp_next !kp l)) (coq_bool (udp_render_panics l))) in
+  let ex_ser (l0 : udp) (p : BinNums.coq_Z list) (f : bool) (c : bool) (ph : pseudo) (d : int) =
+    let r = udp_serialize l0 p f c ph (junk_of d) in
+    coq_example_named out (name ())
+      (Printf.sprintf "udp_serialize %s %s %s %s %s %s" (coq_udp l0) (coq_zlist p) (coq_bool f) (coq_bool c) (coq_ph ph) (coq_junk d))
+      (coq_pair (coq_outcome coq_zlist) coq_udp r); r in
+  Stdlib.List.iter (fun op ->
+    let k = String.index op ':' in
+    let nm = String.sub op 0 k and args = split_on ',' (String.sub op (k + 1) (String.length op - k - 1)) in
+    if nm = "kp" then kp := Stdlib.List.map (fun s -> z_of_int (int_of_string s)) (Stdlib.List.filter (fun s -> s <> "") args)
+    else if !n < 6 then
+    match nm, args with
+    | "dec", [h] when small h ->
+      let b = bytes_of_hex h in ex_dec ("udp_decode_into udp_fresh " ^ coq_zlist b) (udp_decode_into udp_fresh b)
+    | "dec2", [a; b] when small a && small b ->
+      let a = bytes_of_hex a and b = bytes_of_hex b in
+      ex_dec (Printf.sprintf "udp_dec2 %s %s" (coq_zlist a) (coq_zlist b)) (udp_dec2 a b)
+    | ("ser" | "new"), [h; fcd; p; ph] when small h && small p ->
+      let l0 = if nm = "ser" then (let ((l, _), _) = udp_decode_into udp_fresh (bytes_of_hex h) in l)
+        else (match split_on '.' h with
+          | [a; b; c; d] -> let z s = z_of_int (int_of_string s) in
+            { u_contents = []; u_payload = []; u_sport = z a; u_dport = z b; u_length = z c; u_csum = z d; u_sp = []; u_dp = [] }
+          | _ -> failwith "udp spec") in
+      ignore (ex_ser l0 (bytes_of_hex p) (fcd.[0] = '1') (fcd.[1] = '1') (ph_of ph) (Char.code fcd.[2] - 48))
+    | "rt", [x; y; ph] when small x && small y ->
+      let b = bytes_of_hex x in
+      let ((l, o), _) as r = udp_decode_into udp_fresh b in
+      ex_dec ("udp_decode_into udp_fresh " ^ coq_zlist b) r;
+      (match o with
+       | Base.Ok _ ->
+         (match ex_ser l (bytes_of_hex y) true true (ph_of ph) 0 with
+          | (Base.Ok b2, _) -> ex_dec ("udp_decode_into udp_fresh " ^ coq_zlist b2) (udp_decode_into udp_fresh b2)
+          | _ -> ())
+       | _ -> ())
+    | _ -> ()) ops
+let registered_coq = Registry.register_coq "Ludp" ("From GP Require Import Base LudpModel.\n", to_coq)
